@@ -1,6 +1,6 @@
 SPECIFICATION Spec
 CONSTANTS MaxEdits = 2  MaxInv = 1  MaxDrop = 0  MaxRequery = 0  MtimeEdits = FALSE  GenDepth = 0
-CONSTANT Weak = {"MemoIgnoresSandbox"}
+CONSTANT Weak = {"MemoIgnoresUnsetTouched"}
 VIEW view
 INVARIANT CexPrint
 CHECK_DEADLOCK FALSE
